@@ -16,7 +16,7 @@ import signal
 from harness.engine import tlc as T
 
 SPEC = os.path.join(T.SPECS, "Dialogue")
-NOPAT = {"ci": True, "alts": ["y"], "whole": False, "dflt": True}
+NOPAT = {"ci": True, "alts": ["y"], "whole": False, "anch": True, "dflt": True}
 SLACK = 3  # reads granted beyond (remaining lines + attempt limit) before the budget ends the dialogue
 
 
@@ -65,8 +65,8 @@ def _env():
         raise T.MachineryError("stty is reachable: the line-reading path is not guaranteed")
 
     class BudgetIn(InputStream):
-        def __init__(self, text):
-            self.inner = StringInputStream(text)
+        def __init__(self, inner):
+            self.inner = inner  # the stream the I/O holds when ask() is called, however it got there
             self.reads = 0  # read calls
             self.consumed = 0  # ... that returned a line
             self.budget = 0
@@ -154,12 +154,14 @@ def q_event(qd):
         "kind": qd["kind"], "choices": [list(c) for c in qd["choices"]],
         "built": [list(c) for c in qd.get("built", qd["choices"])], "multi": qd["multi"], "hasDef": qd["hasDef"],
         "def": list(qd["def"]), "defB": qd["defB"], "maxAtt": qd["maxAtt"], "interactive": qd["interactive"],
-        "validator": qd["validator"], "pat": {"ci": p["ci"], "alts": [list(a) for a in p["alts"]], "whole": p["whole"]},
+        "validator": qd["validator"],
+        "pat": {"ci": p["ci"], "alts": [list(a) for a in p["alts"]], "whole": p["whole"], "anch": p.get("anch", True)},
     }
 
 
 def regex_of(p):
-    return ("(?i)" if p["ci"] else "") + "^(" + "|".join(re.escape(a) for a in p["alts"]) + ")" + ("$" if p["whole"] else "")
+    return ("(?i)" if p["ci"] else "") + ("^" if p.get("anch", True) else "") + "(" + "|".join(re.escape(a) for a in p["alts"]) + ")" + \
+        ("$" if p["whole"] else "")
 
 
 def build(qd):
@@ -223,18 +225,62 @@ def _formatter():
     return _FMT[0]
 
 
-class Session(object):
-    """one IO = one input script; questions are asked on it one after the other"""
+def joined(ls):
+    return "".join(x + "\n" for x in ls)
 
-    def __init__(self, lines):
+
+def R(op, ls=(), b=False):
+    return {"op": op, "ls": list(ls), "b": bool(b)}
+
+
+class Session(object):
+    """one BufferedIO, prepared by a route of API calls (constructor argument, set_input, append_input, stream.set,
+    stream.append, clear_input, io.set_interactive, io.input.set_interactive); questions are asked on it one after
+    the other.  Only after the route the streams the I/O then holds are wrapped by the budgets."""
+
+    def __init__(self, lines, route=None):
         E = _env()
+        from clikit.io import BufferedIO
+
         self.lines = list(lines)
-        self.ins = E["BudgetIn"]("".join(x + "\n" for x in lines))
-        self.out = E["BudgetOut"]()
-        self.err = E["BudgetOut"]()
-        fmt = _formatter()
-        self.io = E["IO"](E["Input"](self.ins), E["Output"](self.out, fmt), E["Output"](self.err, fmt))
+        self.route = [dict(o) for o in (route or [R("ctor", lines)])]
+        self.pending = list(self.route)  # calls made since the previous ask (reported with the next event)
+        self.flag = True  # what the calls so far say about interaction
+        self.nswitch = 0
+        io = None
+        for o in self.route:
+            io = self.call(io, o)
+        self.io = io
+        self.ins = E["BudgetIn"](io.input.stream)
+        io.input.set_stream(self.ins)
+        self.out, self.err = E["BudgetOut"](), E["BudgetOut"]()
+        io.output.set_stream(self.out)
+        io.error_output.set_stream(self.err)
         self.dead = False
+
+    def call(self, io, o):
+        from clikit.io import BufferedIO
+
+        k, t = o["op"], joined(o["ls"])
+        if k == "ctor":
+            return BufferedIO(t, formatter=_formatter())
+        if k == "set_input":
+            io.set_input(t)
+        elif k == "stream_set":
+            io.input.stream.set(t)
+        elif k == "append_input":
+            io.append_input(t)
+        elif k == "stream_append":
+            io.input.stream.append(t)
+        elif k == "clear_input":
+            io.clear_input()
+        elif k == "io_inter":
+            io.set_interactive(o["b"])
+            self.flag = o["b"]
+        elif k == "input_inter":
+            io.input.set_interactive(o["b"])
+            self.flag = o["b"]
+        return io
 
     def ask(self, qd, question=None, sess=1, obj=0, reask=False):
         """asks the question (a fresh object unless one is given), returns the event record"""
@@ -247,7 +293,12 @@ class Session(object):
         ins.budget = r0 + allow
         out.budget = out.writes + 64
         err.budget = err.writes + 4 * (allow + 2)
-        self.io.set_interactive(qd["interactive"])
+        if qd["interactive"] != self.flag:  # only when the calls so far say otherwise; alternately through either API
+            self.nswitch += 1
+            o = R("io_inter" if self.nswitch % 2 else "input_inter", b=qd["interactive"])
+            self.call(self.io, o)
+            self.pending.append(o)
+        route, self.pending = self.pending, []
         kind, cls, val = "ret", "", None
         if question is None:
             question = build(qd)
@@ -264,6 +315,7 @@ class Session(object):
         left = getattr(question, "max_attempts", None)
         return {
             "q": q_event(qd), "sess": sess, "obj": obj, "reask": reask,
+            "route": [{"op": o["op"], "ls": [list(x) for x in o["ls"]], "b": o["b"]} for o in route],
             "script": [list(x) for x in self.lines],
             "start": start,
             "obs": {
@@ -295,7 +347,7 @@ def run_case(case):
         objs = {}
         tr = []
         for k, ses in enumerate(case["sessions"]):
-            s = Session(ses["lines"])
+            s = Session(ses["lines"], ses.get("route"))
             for i in ses["asks"]:
                 qd = case["objects"][i]
                 reask = i in objs
@@ -327,7 +379,7 @@ def case_of(rec, pools):
                    maxAtt=rec["a"], interactive=rec["i"], validator=rec["v"], built=rec["b"] if k == "choice" else None)
         lines = [pools["answers"][j - 1] for j in rec["s"]]
     # rounds = 2: the same question object is asked twice on the one input
-    return {"objects": [qd], "sessions": [{"lines": lines, "asks": [0] * rec["rounds"]}]}
+    return {"objects": [qd], "sessions": [{"lines": lines, "asks": [0] * rec["rounds"], "route": rec["route"]}]}
 
 
 def _exp(o, r, n, e, w, att):
@@ -417,9 +469,13 @@ class Replayer(object):
 # ---------------------------------------------------------------------------------- code -> spec
 NAMES = ["Superman", "Batman", "Spiderman", "a", "A", "b", "1", "0", "2", "10", "x y", "a.b", "a-b", "xy", "ab", "-1", "c_d"]
 JUNK = ["zz", "John", "</info>", "+1", "01", "-0", "1_0", "99", "-2", "-1", "4", "5", "a b", "a,", ",a", "a,,b", "0 1", "?", "yes"]
-CONF = ["y", "Y", "yes", "YES", "n", "no", "j", "J", "oui", "ye", "yess", "ny", " y", "y ", "  ", "", "o", "Oui", "0", "1"]
+CONF = ["y", "Y", "yes", "YES", "n", "no", "j", "J", "oui", "ye", "yess", "ny", " y", "y ", "  ", "", "o", "Oui", "0", "1",
+        "nay", "oh yes", "not ok", "ok", "OK", "01", "10", "no way", "maybe", "yes please"]
 PATS = [NOPAT, {"ci": True, "alts": ["j", "y"], "whole": False}, {"ci": False, "alts": ["yes", "oui"], "whole": True},
-        {"ci": True, "alts": ["o", "y"], "whole": False}, {"ci": False, "alts": ["y"], "whole": False}]
+        {"ci": True, "alts": ["o", "y"], "whole": False}, {"ci": False, "alts": ["y"], "whole": False},
+        # without "^": re.match still anchors at the start
+        {"ci": False, "alts": ["y"], "whole": False, "anch": False}, {"ci": True, "alts": ["ok", "1"], "whole": False, "anch": False},
+        {"ci": False, "alts": ["yes", "ys"], "whole": True, "anch": False}, {"ci": True, "alts": ["ye"], "whole": False, "anch": False}]
 
 
 def pad(rng, s):
@@ -489,6 +545,34 @@ def callers_edit(rng, qd):
     return qd
 
 
+def rand_route(rng, lines, inter):
+    """some way through the BufferedIO API to an I/O that holds `lines` and is (not) interactive"""
+    k = rng.choice([0, len(lines), len(lines), rng.randint(0, len(lines))])
+    route = [R("ctor", lines[:k])]
+    if k < len(lines) or rng.random() < 0.2:
+        x = rng.random()
+        if x < 0.35:
+            route.append(R("set_input", lines))
+        elif x < 0.55:
+            route.append(R("stream_set", lines))
+        elif x < 0.65:
+            route += [R("clear_input"), R(rng.choice(["append_input", "stream_append"]), lines)]
+        else:
+            m = rng.randint(k, len(lines))
+            route += [R(rng.choice(["append_input", "stream_append"]), lines[k:m]), R(rng.choice(["append_input", "stream_append"]), lines[m:])]
+    if not inter or rng.random() < 0.15:
+        sw = [R(rng.choice(["io_inter", "input_inter"]), b=inter)]
+        if rng.random() < 0.3:
+            sw.insert(0, R(rng.choice(["io_inter", "input_inter"]), b=not inter))
+        for o in sw:  # anywhere after the constructor: before or after the input is loaded
+            route.insert(rng.randint(1, len(route)), o)
+        # keep the order of the two switches
+        idx = [i for i, o in enumerate(route) if o["op"] in ("io_inter", "input_inter")]
+        if len(idx) == 2 and route[idx[1]]["b"] != inter:
+            route[idx[0]], route[idx[1]] = route[idx[1]], route[idx[0]]
+    return route
+
+
 def rand_case(rng):
     """1-2 inputs; 1-4 question objects, some of them asked again (same input or the next one)"""
     objects = [rand_question(rng) for _ in range(rng.randint(1, 4))]
@@ -506,15 +590,15 @@ def rand_case(rng):
                 lines.append(rand_line(rng, objects[i]))
         if rng.random() < 0.3:  # plenty of input: the dialogues end before the input does
             lines += [rand_line(rng, objects[asks[-1]]) for _ in range(3)]
-        sessions.append({"lines": lines, "asks": asks})
+        sessions.append({"lines": lines, "asks": asks, "route": rand_route(rng, lines, objects[asks[0]]["interactive"] if asks else True)})
     return {"objects": objects, "sessions": sessions}
 
 
 # ---------------------------------------------------------------------------------- check
-REASK = ("MC_Dialogue_reask.cfg", "same-object-asked-twice + caller-edits-the-list", 9000)
+REASK = ("MC_Dialogue_reask.cfg", "same-object-asked-twice + caller-edits-the-list", 6000)
 MODEL_RUNS = {
-    "quick": [("MC_Dialogue_quick.cfg", "choice-dialogues", 60000), ("MC_Dialogue_misc.cfg", "plain-confirm-noninteractive", 1500), REASK],
-    "thorough": [("MC_Dialogue_quick.cfg", "choice-dialogues", 60000), ("MC_Dialogue_misc.cfg", "plain-confirm-noninteractive", 1500), REASK,
+    "quick": [("MC_Dialogue_quick.cfg", "choice-dialogues", 50000), ("MC_Dialogue_misc.cfg", "plain-confirm-noninteractive", 1500), REASK],
+    "thorough": [("MC_Dialogue_quick.cfg", "choice-dialogues", 50000), ("MC_Dialogue_misc.cfg", "plain-confirm-noninteractive", 1500), REASK,
                  ("MC_Dialogue_thorough_a.cfg", "choice-dialogues-3-lines (safety)", 600000),
                  ("MC_Dialogue_thorough_b.cfg", "choice-dialogues-3-choices (safety)", 500000)],
 }
